@@ -200,6 +200,14 @@ func c05Defects(base *specs.Spec) []c05Defect {
 				mem("env", lvl, el, fmt.Sprintf("%q", v), func(s *specs.Spec) { c05Edits(s, lvl).Env[idx(el)] = v })
 			}
 			mem("node-path-empty", lvl, el, "", func(s *specs.Spec) { c05Edits(s, lvl).DeviceNodes[idx(el)].Path = "" })
+			mem("node-path-empty", lvl, el, "hostPath set", func(s *specs.Spec) {
+				n := c05Edits(s, lvl).DeviceNodes[idx(el)]
+				n.Path, n.HostPath = "", "/dev/null"
+			})
+			mem("node-path-empty", lvl, el, "hostPath unset", func(s *specs.Spec) {
+				n := c05Edits(s, lvl).DeviceNodes[idx(el)]
+				n.Path, n.HostPath = "", ""
+			})
 			for _, t := range []string{"x", "C", "cc", "block", "bc", "cu", "up", "bcup", "cb", " c", "c ", "char", "b,c"} {
 				t := t
 				mem("node-type", lvl, el, t, func(s *specs.Spec) { c05Edits(s, lvl).DeviceNodes[idx(el)].Type = t })
